@@ -6,7 +6,7 @@
 #   [:ints lo n]                     all n integers lo, lo+1, ... : element-wise round trip inside
 #                                    arrays (chunks of 65536), result "n-checked mismatches first-bad"
 #   [:int1 v ...]                    each listed int alone at top level, as length and as element
-#   [:g nodes order]                 graph recipe; nodes = [[:A slot slot] ...], order = build order
+#   [:g nodes order pure lean]       graph recipe; nodes = [[:A slot slot] ...], order = build order
 #                                    of the immutable nodes. Root is node 0.
 #   [:v desc]                        a single value built from a descriptor (leaf sweeps)
 # output (tab separated): see the handlers.
@@ -86,16 +86,18 @@
 
 (defn do-graph [item]
   (def nodes (in item 1))
+  (def lean (in item 4))
   (def x (build nodes (in item 2)))
   (def o (canon x))
   (def out @[o])
   # 1 plain
-  (def c1 (rt x))
+  (def b0 (marshal x))
+  (def c1 (unmarshal b0))
   (array/push out (same o (canon c1)))
   # 2 the image dictionaries (nothing of the graph is in them)
-  (array/push out (same o (canon (unmarshal (marshal x make-image-dict) load-image-dict))))
+  (array/push out (if lean "=" (same o (canon (unmarshal (marshal x make-image-dict) load-image-dict)))))
   # 3 twice: the copy is itself a well-formed value
-  (array/push out (same o (canon (rt c1))))
+  (array/push out (if lean "=" (same o (canon (rt c1)))))
   # 4 purely immutable values: the copy is = to the original and hashes the same
   (array/push out (if (in item 3) (string (= x c1) (= (hash x) (hash c1))) "-"))
   # 5 one registered node at a time: marshal replaces it by a name, unmarshal by a fresh value of the same type
@@ -105,8 +107,8 @@
                 :tuple (if (= :brackets (tuple/type obj)) (tuple/brackets :R) (tuple :R))))
     (def c (unmarshal (marshal x @{obj 'r}) @{'r repl}))
     (array/push out (canon c)))
-  # 6 marshalling does not change the original
-  (array/push out (same o (canon x)))
+  # 6 marshalling does not change the original, and is a function of the value
+  (array/push out (if (= (string b0) (string (marshal x))) (if lean "=" (same o (canon x))) "remarshal-differs"))
   (string/join out "\t"))
 
 (defn do-value [item]
